@@ -35,7 +35,8 @@ type GetSpec struct {
 // SStep is one step of a server-level script.
 type SStep struct {
 	K     string     `json:"k"` // connect params elect ops multi none close abort sendfail flush get getcut
-	Cut   int        `json:"cut,omitempty"` // getcut: stream.Send fails once Cut responses were delivered
+	Cut   int        `json:"cut,omitempty"` // getcut / sendfailbatch: Send fails once Cut responses were delivered
+	Stall int        `json:"stall,omitempty"` // getcut: the failing Send first stalls for that many milliseconds
 	S     int        `json:"s,omitempty"`
 	Red   int        `json:"red,omitempty"`
 	Pers  int        `json:"pers,omitempty"`
@@ -68,9 +69,11 @@ type fakeGet struct {
 	grpc.ServerStream
 	ctx   context.Context
 	items []*spb.AFTEntry
-	// failAfter >= 0: Send fails once that many responses were delivered (client went away)
+	// failAfter >= 0: Send fails once that many responses were delivered (client went away);
+	// stall: the failing Send first blocks for a while (a client that stalls, then disconnects)
 	failAfter int
 	sent      int
+	stall     time.Duration
 }
 
 func (f *fakeGet) Context() context.Context     { return f.ctx }
@@ -79,6 +82,7 @@ func (f *fakeGet) SendHeader(metadata.MD) error { return nil }
 func (f *fakeGet) SetTrailer(metadata.MD)       {}
 func (f *fakeGet) Send(r *spb.GetResponse) error {
 	if f.failAfter >= 0 && f.sent >= f.failAfter {
+		time.Sleep(f.stall)
 		return status.Error(codes.Canceled, "client went away")
 	}
 	f.sent++
@@ -134,7 +138,12 @@ func (f FlushSpec) FlushReq() *spb.FlushRequest {
 
 // DoGet runs a Get with a watchdog; failAfter < 0 reads the whole stream.
 func (d *Server) DoGet(req *spb.GetRequest, failAfter int) (items []*spb.AFTEntry, err error, hang string) {
-	f := &fakeGet{ctx: context.Background(), failAfter: failAfter}
+	return d.DoGetStall(req, failAfter, 0)
+}
+
+// DoGetStall is DoGet where the failing Send first stalls.
+func (d *Server) DoGetStall(req *spb.GetRequest, failAfter int, stall time.Duration) (items []*spb.AFTEntry, err error, hang string) {
+	f := &fakeGet{ctx: context.Background(), failAfter: failAfter, stall: stall}
 	done := make(chan error, 1)
 	go func() { done <- d.S.Get(req, f) }()
 	select {
@@ -242,8 +251,14 @@ func (x *SRun) Step(st SStep) SObs {
 		err = s.Abort()
 	case "sendfail":
 		err = s.SendFail()
+	case "sendfailbatch":
+		m := &spb.ModifyRequest{}
+		for _, op := range st.Ops {
+			m.Operation = append(m.Operation, op.Proto())
+		}
+		rs, err = s.SendFailDuring(m, st.Cut)
 	case "getcut":
-		items, gerr, hang := x.D.DoGet(st.Get.GetReq(), st.Cut)
+		items, gerr, hang := x.D.DoGetStall(st.Get.GetReq(), st.Cut, time.Duration(st.Stall)*time.Millisecond)
 		o.Hang = hang
 		o.GetOK = gerr == nil
 		o.GetItems = items
